@@ -304,6 +304,10 @@ func (v Val) Depth() int {
 // when false, the harness does not assert the outcome of comparing them.
 func SameShape(a, b Val) bool {
 	if a.K != b.K {
+		// a tuple is a function over 1..n: TLC compares the two as functions
+		if (a.K == KTup || a.K == KFn) && (b.K == KTup || b.K == KFn) {
+			return SameShape(asFnView(a), asFnView(b))
+		}
 		return false
 	}
 	switch a.K {
@@ -337,6 +341,17 @@ func SameShape(a, b Val) bool {
 		}
 	}
 	return true
+}
+
+func asFnView(v Val) Val {
+	if v.K != KTup {
+		return v
+	}
+	ks := make([]Val, len(v.E))
+	for i := range ks {
+		ks[i] = Int(int64(i + 1))
+	}
+	return Val{K: KFn, Ks: ks, Vs: v.E}
 }
 
 // Homogeneous: every collection inside v holds mutually comparable members.
